@@ -7,8 +7,16 @@
 //! `catch_unwind` for every reference reachable from `FileSegment`) and records, per node, what
 //! the real `Matchable::simple` / `is_optional` answer, so that Coq can compare the Gallina
 //! `simple`/`deref` evaluated on the dumped graph with the behaviour of the code.
+//!
+//! Nothing that may fail to return is called on the walking thread: every real `simple()` and
+//! every real parse runs on a helper thread under a watchdog (`watched` / `watched_batch`), because
+//! a left-corner self reference makes `Ref::simple` re-enter its own `OnceLock::get_or_init` and
+//! block for ever (0 % CPU).  The structure dump itself only uses the field accessors.
 use std::collections::{BTreeMap, BTreeSet, HashMap, VecDeque};
 use std::fmt::Write as _;
+use std::sync::atomic::{AtomicUsize, Ordering};
+use std::sync::{Arc, Mutex, mpsc};
+use std::time::{Duration, Instant};
 
 use ahash::AHashMap;
 use serde_json::{Value, json};
@@ -29,8 +37,215 @@ pub fn dialect_of(name: &str) -> Dialect {
     kind_to_dialect(&kind).expect("dialect enabled")
 }
 
-// ------------------------------------------------------------------------------------ the dump
+
+// ------------------------------------------------------------------------------------ watchdog
+/// Why a watched call was given up.
 #[derive(Clone, Debug)]
+pub struct Hang {
+    /// "deadlock": the helper thread slept (state S) without consuming any CPU for the quiet
+    /// period; "timeout": it was still running at the absolute limit; "died": it vanished.
+    pub verdict: &'static str,
+    pub waited_ms: u64,
+    pub thread_state: String,
+    pub cpu_ticks: u64,
+}
+impl Hang {
+    pub fn json(&self) -> Value {
+        json!({"verdict": self.verdict, "waited_ms": self.waited_ms, "helper_thread_state": self.thread_state, "helper_thread_cpu_ticks": self.cpu_ticks})
+    }
+    pub fn text(&self) -> String {
+        match self.verdict {
+            "deadlock" => format!("does not return: the thread computing it blocks for ever (state {}, {} CPU ticks, no progress for {} ms)", self.thread_state, self.cpu_ticks, self.waited_ms),
+            "timeout" => format!("did not return within {} ms (thread state {}, {} CPU ticks)", self.waited_ms, self.thread_state, self.cpu_ticks),
+            _ => "the helper thread died".to_string(),
+        }
+    }
+}
+pub enum Watched<T> {
+    Done(T),
+    Hung(Hang),
+}
+fn env_ms(name: &str, default: u64) -> Duration {
+    Duration::from_millis(std::env::var(name).ok().and_then(|s| s.parse().ok()).unwrap_or(default))
+}
+/// a sleeping helper that used no CPU for this long is blocked for good (nothing it runs sleeps:
+/// no I/O, no lock other than the `OnceLock`s of the grammar)
+pub fn quiet_period() -> Duration {
+    env_ms("SQV_HANG_QUIET_MS", 1500)
+}
+/// absolute limit for one first-token-hint computation (normally microseconds)
+pub fn simple_limit() -> Duration {
+    env_ms("SQV_SIMPLE_LIMIT_MS", 30_000)
+}
+/// absolute limit for one parse of a statement / fixture (normally milliseconds)
+pub fn parse_limit() -> Duration {
+    env_ms("SQV_PARSE_LIMIT_MS", 120_000)
+}
+const HELPER_STACK: usize = 64 << 20;
+
+fn own_task_dir() -> Option<String> {
+    std::fs::read_link("/proc/thread-self").ok().map(|p| format!("/proc/{}", p.display()))
+}
+/// (state, utime + stime) of a thread of this process
+fn task_stat(dir: &str) -> Option<(char, u64)> {
+    let s = std::fs::read_to_string(format!("{}/stat", dir)).ok()?;
+    let rest = &s[s.rfind(')')? + 1..];
+    let f: Vec<&str> = rest.split_whitespace().collect();
+    let state = f.first()?.chars().next()?;
+    let ut: u64 = f.get(11)?.parse().ok()?;
+    let st: u64 = f.get(12)?.parse().ok()?;
+    Some((state, ut + st))
+}
+/// Progress monitor of one helper thread.
+struct Monitor {
+    task: Option<String>,
+    start: Instant,
+    last_ticks: u64,
+    last_progress: Instant,
+    state: char,
+}
+impl Monitor {
+    fn new() -> Monitor {
+        Monitor { task: None, start: Instant::now(), last_ticks: 0, last_progress: Instant::now(), state: '?' }
+    }
+    /// call when the helper is known to have made progress (a new item was started)
+    fn progress(&mut self) {
+        self.start = Instant::now();
+        self.last_progress = Instant::now();
+    }
+    fn check(&mut self, limit: Duration) -> Option<Hang> {
+        let now = Instant::now();
+        if let Some(dir) = &self.task {
+            match task_stat(dir) {
+                Some((st, ticks)) => {
+                    if ticks != self.last_ticks || st != 'S' {
+                        self.last_ticks = ticks;
+                        self.last_progress = now;
+                    }
+                    self.state = st;
+                }
+                // the thread is gone: either it has just delivered its result (the caller reads it from the
+                // channel next) or it died, which the caller sees as a disconnected channel
+                None => {
+                    self.state = '?';
+                    self.last_progress = now;
+                }
+            }
+        } else {
+            self.last_progress = now;
+        }
+        if now.duration_since(self.last_progress) >= quiet_period() {
+            return Some(self.hang("deadlock", now));
+        }
+        if now.duration_since(self.start) >= limit {
+            return Some(self.hang("timeout", now));
+        }
+        None
+    }
+    fn hang(&self, verdict: &'static str, now: Instant) -> Hang {
+        let waited = if verdict == "deadlock" { now.duration_since(self.last_progress) } else { now.duration_since(self.start) };
+        Hang { verdict, waited_ms: waited.as_millis() as u64, thread_state: self.state.to_string(), cpu_ticks: self.last_ticks }
+    }
+}
+enum Msg<T> {
+    Task(Option<String>),
+    Done(T),
+}
+/// Run `f` on a fresh helper thread; give up (and leak the thread) when it is blocked or over the limit.
+pub fn watched<T: Send + 'static>(limit: Duration, f: impl FnOnce() -> T + Send + 'static) -> Watched<T> {
+    let (tx, rx) = mpsc::channel::<Msg<T>>();
+    let spawned = std::thread::Builder::new().stack_size(HELPER_STACK).spawn(move || {
+        let _ = tx.send(Msg::Task(own_task_dir()));
+        let r = f();
+        let _ = tx.send(Msg::Done(r));
+    });
+    if spawned.is_err() {
+        return Watched::Hung(Hang { verdict: "died", waited_ms: 0, thread_state: "?".into(), cpu_ticks: 0 });
+    }
+    let mut mon = Monitor::new();
+    loop {
+        match rx.recv_timeout(Duration::from_millis(20)) {
+            Ok(Msg::Task(t)) => mon.task = t,
+            Ok(Msg::Done(r)) => return Watched::Done(r),
+            Err(mpsc::RecvTimeoutError::Timeout) => {
+                if let Some(h) = mon.check(limit) {
+                    return Watched::Hung(h);
+                }
+            }
+            Err(mpsc::RecvTimeoutError::Disconnected) => return Watched::Hung(mon.hang("died", Instant::now())),
+        }
+    }
+}
+/// `f(0) .. f(n-1)` on one helper thread; an item that blocks is recorded and the rest continues
+/// on a new helper.  After `max_hangs` hangs the remaining items are left unevaluated (`None`).
+pub fn watched_batch<T: Send + 'static>(n: usize, limit: Duration, max_hangs: usize, f: Arc<dyn Fn(usize) -> T + Send + Sync>) -> (Vec<Option<T>>, Vec<(usize, Hang)>) {
+    struct Shared<T> {
+        results: Mutex<(usize, Vec<Option<T>>)>, // (generation allowed to write, results)
+        cur: AtomicUsize,
+    }
+    let sh = Arc::new(Shared { results: Mutex::new((0, (0..n).map(|_| None).collect())), cur: AtomicUsize::new(0) });
+    let mut hangs = vec![];
+    let mut start = 0usize;
+    let mut generation = 0usize;
+    while start < n && hangs.len() < max_hangs {
+        generation += 1;
+        sh.results.lock().unwrap().0 = generation;
+        sh.cur.store(start, Ordering::SeqCst);
+        let (tx, rx) = mpsc::channel::<Msg<()>>();
+        let (sh2, f2, my_gen) = (sh.clone(), f.clone(), generation);
+        let spawned = std::thread::Builder::new().stack_size(HELPER_STACK).spawn(move || {
+            let _ = tx.send(Msg::Task(own_task_dir()));
+            for i in start..n {
+                sh2.cur.store(i, Ordering::SeqCst);
+                let r = f2(i);
+                let mut g = sh2.results.lock().unwrap();
+                if g.0 != my_gen {
+                    return;
+                }
+                g.1[i] = Some(r);
+            }
+            let _ = tx.send(Msg::Done(()));
+        });
+        if spawned.is_err() {
+            break;
+        }
+        let mut mon = Monitor::new();
+        let mut seen = start;
+        loop {
+            match rx.recv_timeout(Duration::from_millis(20)) {
+                Ok(Msg::Task(t)) => mon.task = t,
+                Ok(Msg::Done(())) => {
+                    start = n;
+                    break;
+                }
+                Err(e) => {
+                    let cur = sh.cur.load(Ordering::SeqCst);
+                    if cur != seen {
+                        seen = cur;
+                        mon.progress();
+                    }
+                    let h = if matches!(e, mpsc::RecvTimeoutError::Disconnected) { Some(mon.hang("died", Instant::now())) } else { mon.check(limit) };
+                    if let Some(h) = h {
+                        // re-read under the lock so that the item blamed is the one being computed
+                        let mut g = sh.results.lock().unwrap();
+                        g.0 = usize::MAX;
+                        let cur = sh.cur.load(Ordering::SeqCst);
+                        let blamed = (cur..n).find(|&i| g.1[i].is_none()).unwrap_or(cur);
+                        drop(g);
+                        hangs.push((blamed, h));
+                        start = blamed + 1;
+                        break;
+                    }
+                }
+            }
+        }
+    }
+    let results = std::mem::take(&mut sh.results.lock().unwrap().1);
+    (results, hangs)
+}
+
+// ------------------------------------------------------------------------------------ the dump
+#[derive(Clone, Debug, PartialEq)]
 pub enum Node {
     Ref { name: usize, excl: Option<usize>, terms: Vec<usize>, reset: bool },
     Seq { elems: Vec<usize>, terms: Vec<usize>, greedy: bool },
@@ -51,7 +266,7 @@ pub enum Node {
 }
 
 /// What the real `simple` answered: 0 = Some hint, 1 = None (not simple), 2 = dangling reference
-/// panic, 3 = self-reference panic, 4 = other panic.
+/// panic, 3 = self-reference panic, 4 = other panic, 5 = it never returned (watchdog).
 #[derive(Clone, Debug, PartialEq)]
 pub struct RealSimple {
     pub class: u8,
@@ -338,6 +553,184 @@ impl Graph {
             Node::BrackSeg => "BracketedSegmentMatcher".into(),
         }
     }
+    /// library names under which node `n` is registered
+    pub fn lib_names(&self, n: usize) -> Vec<&str> {
+        self.library.iter().filter(|(_, id)| *id == n).map(|(s, _)| self.strs[*s].as_str()).collect()
+    }
+    /// `describe` + node number + the library name(s) of the node
+    pub fn label(&self, n: usize) -> String {
+        let names = self.lib_names(n);
+        if names.is_empty() || matches!(self.nodes[n], Node::NodeM { .. }) { format!("{}#{}", self.describe(n), n) } else { format!("{}#{} (= {})", self.describe(n), n, names.join("/")) }
+    }
+    /// Left-corner cycles among the nodes without a rank: from each start follow unranked
+    /// `lc_children` until a node repeats.  A cycle is rotated so that it starts at the target of
+    /// its lowest-numbered `Ref` (every cycle passes through a `Ref`: the `Arc` trees are acyclic).
+    pub fn lc_cycles(&self, ranks: &[Option<usize>], starts: &[usize], max: usize) -> Vec<Vec<usize>> {
+        let mut found: Vec<Vec<usize>> = vec![];
+        let mut covered: BTreeSet<usize> = BTreeSet::new();
+        for &s in starts {
+            if found.len() >= max {
+                break;
+            }
+            if ranks[s].is_some() || covered.contains(&s) {
+                continue;
+            }
+            let mut pos: HashMap<usize, usize> = HashMap::new();
+            let mut path: Vec<usize> = vec![];
+            let mut cur = s;
+            let cycle = loop {
+                if let Some(&i) = pos.get(&cur) {
+                    break Some(path[i..].to_vec());
+                }
+                if covered.contains(&cur) {
+                    break None; // leads into a cycle already reported
+                }
+                pos.insert(cur, path.len());
+                path.push(cur);
+                match self.lc_children(cur).into_iter().find(|c| ranks[*c].is_none()) {
+                    Some(c) => cur = c,
+                    None => break None,
+                }
+            };
+            covered.extend(path.iter().copied());
+            if let Some(mut c) = cycle {
+                let k = c.iter().enumerate().filter(|(_, n)| matches!(self.nodes[**n], Node::Ref { .. })).min_by_key(|(_, n)| **n).map(|(i, _)| i + 1).unwrap_or(0);
+                let len = c.len();
+                c.rotate_left(k % len);
+                if !found.contains(&c) {
+                    found.push(c);
+                }
+            }
+        }
+        found
+    }
+    /// the names of the `Ref`s along a cycle, closed: `A -> B -> A`
+    pub fn cycle_names(&self, cyc: &[usize]) -> Vec<String> {
+        let mut v: Vec<String> = vec![];
+        if let Some(&last) = cyc.last() {
+            if let Node::Ref { name, .. } = &self.nodes[last] {
+                v.push(self.strs[*name].clone());
+            }
+        }
+        for &n in cyc {
+            if let Node::Ref { name, .. } = &self.nodes[n] {
+                v.push(self.strs[*name].clone());
+            }
+        }
+        v
+    }
+    /// Shortest known token sentence of every node (`None`: none known), by fixpoint iteration;
+    /// `leaf[n]` is a lexeme the leaf parser `n` accepts.  Only used to aim SQL at a grammar node;
+    /// whatever it produces is judged by the real parser.
+    pub fn min_sentences(&self, leaf: &[Option<String>]) -> Vec<Option<Vec<String>>> {
+        let n = self.nodes.len();
+        let mut ms: Vec<Option<Vec<String>>> = vec![None; n];
+        let seq = |ms: &Vec<Option<Vec<String>>>, elems: &[usize], opt: &Vec<Option<bool>>| -> Option<Vec<String>> {
+            let mut v = vec![];
+            for &e in elems {
+                if opt[e] == Some(true) {
+                    continue;
+                }
+                v.extend(ms[e].clone()?);
+            }
+            Some(v)
+        };
+        let shortest = |ms: &Vec<Option<Vec<String>>>, elems: &[usize]| -> Option<Vec<String>> { elems.iter().filter_map(|&e| ms[e].clone()).min_by_key(|v| v.len()) };
+        for _round in 0..64 {
+            let mut changed = false;
+            for i in 0..n {
+                let cand: Option<Vec<String>> = match &self.nodes[i] {
+                    Node::Ref { name, .. } => self.deref(*name).and_then(|t| ms[t].clone()),
+                    Node::Seq { elems, .. } => seq(&ms, elems, &self.optional),
+                    Node::Brack { elems, .. } => {
+                        let (refs, found) = self.node_refs(i);
+                        if !found || refs.len() < 2 {
+                            None
+                        } else {
+                            let (st, en) = (self.deref(refs[0]).and_then(|t| ms[t].clone()), self.deref(refs[1]).and_then(|t| ms[t].clone()));
+                            match (st, seq(&ms, elems, &self.optional), en) {
+                                (Some(a), Some(b), Some(c)) => Some(a.into_iter().chain(b).chain(c).collect()),
+                                _ => None,
+                            }
+                        }
+                    }
+                    Node::AnyOf { elems, .. } | Node::Delim { elems, .. } => shortest(&ms, elems),
+                    Node::NodeM { g, .. } => ms[*g].clone(),
+                    Node::Str { .. } | Node::Multi { .. } | Node::Typed { .. } | Node::Regex => leaf[i].clone().map(|l| vec![l]),
+                    Node::Meta | Node::Cond | Node::NonCode => Some(vec![]),
+                    Node::Anything { .. } => Some(vec!["x".to_string()]),
+                    Node::Nothing | Node::BrackSeg => None,
+                };
+                if let Some(c) = cand {
+                    if ms[i].as_ref().map(|old| c.len() < old.len()).unwrap_or(true) {
+                        ms[i] = Some(c);
+                        changed = true;
+                    }
+                }
+            }
+            if !changed {
+                break;
+            }
+        }
+        ms
+    }
+    /// For every node a shortest known token prefix after which the parser, started at `FileSegment`,
+    /// can be matching that node (elements only; optional elements before it are left out).
+    pub fn prefixes(&self, ms: &[Option<Vec<String>>]) -> Vec<Option<Vec<String>>> {
+        let n = self.nodes.len();
+        let mut pre: Vec<Option<Vec<String>>> = vec![None; n];
+        let Some(root) = self.deref(0) else { return pre };
+        pre[root] = Some(vec![]);
+        let mut heap: std::collections::BinaryHeap<(std::cmp::Reverse<usize>, usize)> = std::collections::BinaryHeap::new();
+        heap.push((std::cmp::Reverse(0), root));
+        while let Some((std::cmp::Reverse(cost), i)) = heap.pop() {
+            let Some(p) = pre[i].clone() else { continue };
+            if p.len() != cost {
+                continue;
+            }
+            let mut offer = |c: usize, v: Vec<String>, pre: &mut Vec<Option<Vec<String>>>| {
+                if pre[c].as_ref().map(|old| v.len() < old.len()).unwrap_or(true) {
+                    heap.push((std::cmp::Reverse(v.len()), c));
+                    pre[c] = Some(v);
+                }
+            };
+            match &self.nodes[i] {
+                Node::Ref { name, .. } => {
+                    if let Some(t) = self.deref(*name) {
+                        offer(t, p, &mut pre);
+                    }
+                }
+                Node::NodeM { g, .. } => offer(*g, p, &mut pre),
+                Node::AnyOf { elems, .. } | Node::Delim { elems, .. } => {
+                    for &e in elems {
+                        offer(e, p.clone(), &mut pre);
+                    }
+                }
+                Node::Seq { elems, .. } | Node::Brack { elems, .. } => {
+                    let mut cur = p.clone();
+                    if matches!(self.nodes[i], Node::Brack { .. }) {
+                        let (refs, found) = self.node_refs(i);
+                        match refs.first().filter(|_| found).and_then(|r| self.deref(*r)).and_then(|t| ms[t].clone()) {
+                            Some(st) => cur.extend(st),
+                            None => continue,
+                        }
+                    }
+                    for &e in elems {
+                        offer(e, cur.clone(), &mut pre);
+                        if self.optional[e] == Some(true) {
+                            continue;
+                        }
+                        match &ms[e] {
+                            Some(v) => cur.extend(v.iter().cloned()),
+                            None => break,
+                        }
+                    }
+                }
+                _ => {}
+            }
+        }
+        pre
+    }
     /// longest-path rank over the left-corner graph (certificate for termination of `simple`);
     /// None for nodes on or above a left-corner cycle.
     pub fn ranks(&self) -> Vec<Option<usize>> {
@@ -379,19 +772,26 @@ impl Graph {
     }
 }
 
-pub fn real_simple(g: &mut Graph, dialect: &Dialect, n: usize) -> RealSimple {
+/// `Ok(Some((raws, kinds)))` / `Ok(None)` / `Err(panic message)` of one real `Matchable::simple`.
+pub type RawSimple = Result<Option<(Vec<String>, Vec<usize>)>, String>;
+
+/// Only ever called on a watched helper thread: it may never return.
+pub fn raw_simple(dialect: &Dialect, h: &Matchable) -> RawSimple {
     let cfg: AHashMap<String, bool> = AHashMap::new();
     let cx = ParseContext::new(dialect, &cfg);
-    let h = g.handles[n].clone();
-    match catch(|| h.simple(&cx, None)) {
-        Ok(Some((raws, types))) => {
+    catch(|| h.simple(&cx, None)).map(|o| {
+        o.map(|(raws, types)| {
             let mut rs: Vec<String> = raws.into_iter().collect();
             rs.sort();
-            let raws = rs.iter().map(|r| g.intern(r)).collect();
             let mut ts: Vec<usize> = types.iter().map(|k| k as u16 as usize).collect();
             ts.sort();
-            RealSimple { class: 0, raws, types: ts, msg: String::new() }
-        }
+            (rs, ts)
+        })
+    })
+}
+pub fn to_real(g: &mut Graph, r: RawSimple) -> RealSimple {
+    match r {
+        Ok(Some((rs, ts))) => RealSimple { class: 0, raws: rs.iter().map(|r| g.intern(r)).collect(), types: ts, msg: String::new() },
         Ok(None) => RealSimple { class: 1, raws: vec![], types: vec![], msg: String::new() },
         Err(msg) => {
             let class = if msg.contains("Grammar refers to") {
@@ -401,9 +801,36 @@ pub fn real_simple(g: &mut Graph, dialect: &Dialect, n: usize) -> RealSimple {
             } else {
                 4
             };
-            RealSimple { class, raws: vec![], types: vec![], msg: trunc(&msg, 120) }
+            RealSimple { class, raws: vec![], types: vec![], msg: trunc(&msg, 160) }
         }
     }
+}
+pub fn hung_real(h: &Hang) -> RealSimple {
+    RealSimple { class: 5, raws: vec![], types: vec![], msg: h.text() }
+}
+impl RealSimple {
+    pub fn text(&self, g: &Graph) -> String {
+        match self.class {
+            0 => format!("Some(raws {:?}, {} kinds)", self.raws.iter().take(6).map(|r| g.strs[*r].as_str()).collect::<Vec<_>>(), self.types.len()),
+            1 => "None".into(),
+            5 => self.msg.clone(),
+            _ => format!("panic: {}", self.msg),
+        }
+    }
+}
+/// The real `simple()` of node `idx` of a dialect built afresh for this one call (all `OnceLock`s
+/// empty, as the model assumes), under the watchdog.  The walk is deterministic, so the node has
+/// the same number in the fresh graph; that is re-checked.
+pub fn fresh_simple(dialect: &str, idx: usize, n_nodes: usize, describe: &str) -> Watched<Result<RawSimple, String>> {
+    let (d, desc) = (dialect.to_string(), describe.to_string());
+    watched(simple_limit(), move || {
+        let dialect = dialect_of(&d);
+        let g = Graph::build(&d, &dialect);
+        if g.nodes.len() != n_nodes || idx >= g.nodes.len() || g.describe(idx) != desc {
+            return Err(format!("a second build of dialect {} numbers its nodes differently (node {} is {})", d, idx, if idx < g.nodes.len() { g.describe(idx) } else { "absent".into() }));
+        }
+        Ok(raw_simple(&dialect, &g.handles[idx]))
+    })
 }
 
 // ------------------------------------------------------------------------------------ Gallina
@@ -456,21 +883,177 @@ pub struct DialectReport {
     pub strs: Vec<String>,
 }
 
+/// lexemes offered to the leaf parsers (TypedParser / RegexParser) of a dialect
+const LEXEMES: &[&str] = &["a", "1", "'x'", "\"x\"", "`x`", "1.5", "$$x$$", "@a", "$1", "?", ":a", "[a]", "x'00'", "<<a>>", "%s", "{{a}}", "#a", "*"];
+
+/// For every leaf parser a lexeme it accepts, found by lexing the candidates with the dialect's own
+/// lexer and asking the parser itself (`match_segments` of a leaf parser never asks for a hint).
+pub fn leaf_lexemes(g: &Graph, dialect: &Dialect) -> Vec<Option<String>> {
+    let tables = Tables::default();
+    let lexer = dialect.lexer();
+    let lexed: Vec<(String, Vec<sqruff_lib_core::parser::segments::base::ErasedSegment>, u32)> = LEXEMES
+        .iter()
+        .filter_map(|c| {
+            let (toks, _) = catch(|| lexer.lex(&tables, StringOrTemplate::String(c))).ok()?.ok()?;
+            let code: Vec<usize> = toks.iter().enumerate().filter(|(_, t)| t.is_code()).map(|(i, _)| i).collect();
+            if code.len() == 1 { Some((c.to_string(), toks, code[0] as u32)) } else { None }
+        })
+        .collect();
+    let cfg: AHashMap<String, bool> = AHashMap::new();
+    (0..g.nodes.len())
+        .map(|n| match &g.nodes[n] {
+            Node::Str { raws } | Node::Multi { raws } => raws.first().map(|r| g.strs[*r].clone()),
+            Node::Typed { .. } | Node::Regex => lexed.iter().find_map(|(c, toks, at)| {
+                let mut cx = ParseContext::new(dialect, &cfg);
+                match catch(|| g.handles[n].match_segments(toks, *at, &mut cx)) {
+                    Ok(Ok(m)) if m.has_match() => Some(c.clone()),
+                    _ => None,
+                }
+            }),
+            _ => None,
+        })
+        .collect()
+}
+
+/// SQL aimed at the nodes `targets`: a shortest token prefix that brings the parser to the node,
+/// followed by one more token (the hint of an element is asked for when there is a next code token).
+pub fn aimed_sql(g: &Graph, dialect: &Dialect, targets: &[usize]) -> Vec<String> {
+    let leaf = leaf_lexemes(g, dialect);
+    let ms = g.min_sentences(&leaf);
+    let pre = g.prefixes(&ms);
+    let mut out: Vec<String> = vec![];
+    for &t in targets {
+        let Some(p) = &pre[t] else { continue };
+        let mut tails: Vec<Vec<String>> = vec![vec!["x".into()], vec!["1".into()], vec!["(".into(), "x".into(), ")".into()]];
+        if let Some(own) = &ms[t] {
+            if !own.is_empty() {
+                tails.insert(0, own.clone());
+            }
+        }
+        for tail in tails {
+            let sql = format!("{}\n", p.iter().chain(tail.iter()).cloned().collect::<Vec<_>>().join(" "));
+            if !out.contains(&sql) {
+                out.push(sql);
+            }
+        }
+    }
+    out
+}
+
+/// What driving the real parser found (see `synthesise_sql`).
+#[derive(Default)]
+pub struct Synth {
+    /// "<dialect>:<reference>" -> shortest SQL whose parse aborts in `Dialect::ref`
+    pub aborts: BTreeMap<String, String>,
+    /// dialect -> SQL whose parse never returned (shortest first)
+    pub hangs: BTreeMap<String, Vec<(String, Hang)>>,
+    /// dialect -> SQL whose parse aborts with "Self referential grammar detected" (shortest first)
+    pub selfref: BTreeMap<String, Vec<(String, String)>>,
+}
+
+/// at most this many nodes without a rank get their real `simple()` called (each on a dialect of its own)
+const MAX_RISKY_EVAL: usize = 12;
+/// a ranked node whose real `simple()` blocks contradicts the dump; stop asking after this many
+const MAX_UNEXPECTED_HANGS: usize = 4;
+
 /// Everything about one dialect: graph, direct observations, generated Coq file.
-pub fn analyse(name: &str, known: &[String], corpus_hits: &BTreeMap<String, String>, buf: &mut Buf) -> DialectReport {
-    let dialect = dialect_of(name);
+pub fn analyse(name: &str, known: &[String], synth: &Synth, buf: &mut Buf) -> DialectReport {
+    let corpus_hits = &synth.aborts;
+    let dialect = Arc::new(dialect_of(name));
     let mut g = Graph::build(name, &dialect);
     let n_nodes = g.nodes.len();
 
-    // real simple of every node (also interns the raws it returns)
-    let mut simples: Vec<RealSimple> = vec![];
-    for n in 0..n_nodes {
-        let s = real_simple(&mut g, &dialect, n);
-        simples.push(s);
+    // reachability, rank certificate: computed on the dumped structure alone (no `simple()` involved)
+    let (order, parent) = g.reach();
+    let ranks = g.ranks();
+    let reachable: BTreeSet<usize> = order.iter().copied().collect();
+    let unranked_reach: Vec<usize> = order.iter().copied().filter(|&n| ranks[n].is_none()).collect();
+    let unranked_other: Vec<usize> = (0..n_nodes).filter(|n| ranks[*n].is_none() && !reachable.contains(n)).collect();
+    let cycles = g.lc_cycles(&ranks, &unranked_reach, 8);
+    let cycles_unreachable = g.lc_cycles(&ranks, &unranked_other, 8).into_iter().filter(|c| !reachable.contains(&c[0])).count();
+
+    // the real simple() of every node, never on this thread.
+    //  * ranked nodes: one helper thread walks them all on this dialect; the watchdog blames the node
+    //    it is stuck on and the walk resumes behind it on a new helper;
+    //  * nodes without a rank (on or above a left-corner cycle): the dump says their computation does
+    //    not terminate, and a blocked `OnceLock` would poison every later observation on the same
+    //    dialect, so each is asked on a dialect of its own; cycle nodes first, at most MAX_RISKY_EVAL.
+    let mut simples: Vec<Option<RealSimple>> = vec![None; n_nodes];
+    let ranked: Vec<usize> = (0..n_nodes).filter(|n| ranks[*n].is_some()).collect();
+    {
+        let (d2, hs, idx) = (dialect.clone(), Arc::new(g.handles.clone()), Arc::new(ranked.clone()));
+        let f: Arc<dyn Fn(usize) -> RawSimple + Send + Sync> = Arc::new(move |i| raw_simple(&d2, &hs[idx[i]]));
+        let (res, hangs) = watched_batch(ranked.len(), simple_limit(), MAX_UNEXPECTED_HANGS, f);
+        for (i, r) in res.into_iter().enumerate() {
+            if let Some(r) = r {
+                simples[ranked[i]] = Some(to_real(&mut g, r));
+            }
+        }
+        for (i, h) in &hangs {
+            let n = ranked[*i];
+            // confirm in isolation before believing it (a verdict of the watchdog is a measurement)
+            let h = match fresh_simple(name, n, n_nodes, &g.describe(n)) {
+                Watched::Done(Ok(r)) => {
+                    buf.count("hint_hang_not_confirmed_on_fresh_dialect", 1);
+                    simples[n] = Some(to_real(&mut g, r));
+                    continue;
+                }
+                Watched::Hung(h2) => h2,
+                Watched::Done(Err(_)) => h.clone(),
+            };
+            let h = &h;
+            simples[n] = Some(hung_real(h));
+            buf.direct(
+                "simple-terminates",
+                false,
+                &format!("{}:hint-hang:{}", name, g.describe(n)),
+                &format!("the first-token hint (Matchable::simple) of {} in dialect {} {} although the dumped grammar has a termination rank for it", g.label(n), name, h.text()),
+                json!({"dialect": name, "hint_node": n, "hint_node_is": g.label(n), "reachable_from_FileSegment": reachable.contains(&n), "watchdog": h.json(),
+                       "path_from_FileSegment": g.path_to(&parent, n).iter().map(|&p| g.label(p)).collect::<Vec<_>>()}),
+            );
+        }
+    }
+    let mut risky: Vec<usize> = vec![];
+    for c in &cycles {
+        risky.extend(c.iter().copied().filter(|n| !risky.contains(n)).collect::<Vec<_>>());
+    }
+    risky.extend(unranked_reach.iter().copied().filter(|n| !risky.contains(n)).collect::<Vec<_>>());
+    risky.extend(unranked_other.iter().copied().filter(|n| !risky.contains(n)).collect::<Vec<_>>());
+    let n_risky = risky.len();
+    risky.truncate(MAX_RISKY_EVAL);
+    let fresh: Vec<(usize, Watched<Result<RawSimple, String>>)> = std::thread::scope(|sc| {
+        let hs: Vec<_> = risky.iter().map(|&n| (n, g.describe(n))).map(|(n, desc)| (n, sc.spawn(move || fresh_simple(name, n, n_nodes, &desc)))).collect();
+        hs.into_iter().map(|(n, h)| (n, h.join().unwrap_or(Watched::Hung(Hang { verdict: "died", waited_ms: 0, thread_state: "?".into(), cpu_ticks: 0 })))).collect()
+    });
+    for (n, w) in fresh {
+        match w {
+            Watched::Done(Ok(r)) => simples[n] = Some(to_real(&mut g, r)),
+            Watched::Done(Err(why)) => buf.hyp("fresh_dialect_same_numbering", "blocking", false, json!({"dialect": name, "node": n, "why": why})),
+            Watched::Hung(h) => simples[n] = Some(hung_real(&h)),
+        }
+    }
+    // the fresh-dialect mechanism is exercised on every run, defect or not: three ranked nodes are asked
+    // again on dialects of their own and must be numbered and answer as on the shared one
+    if std::env::var("SQV_C14_NO_FRESH_SAMPLES").is_err() {
+        let samples: Vec<usize> = [g.deref(0).unwrap_or(0), n_nodes / 3, 2 * n_nodes / 3].into_iter().filter(|&n| n < n_nodes && ranks[n].is_some()).collect();
+        let again: Vec<(usize, Watched<Result<RawSimple, String>>)> = std::thread::scope(|sc| {
+            let hs: Vec<_> = samples.iter().map(|&n| (n, g.describe(n))).map(|(n, desc)| (n, sc.spawn(move || fresh_simple(name, n, n_nodes, &desc)))).collect();
+            hs.into_iter().filter_map(|(n, h)| h.join().ok().map(|w| (n, w))).collect()
+        });
+        for (n, w) in again {
+            let (ok, why) = match w {
+                Watched::Done(Ok(r)) => {
+                    let r = to_real(&mut g, r);
+                    (simples[n].as_ref() == Some(&r), format!("shared dialect: {:?}, fresh dialect: {:?}", simples[n], r))
+                }
+                Watched::Done(Err(why)) => (false, why),
+                Watched::Hung(h) => (false, h.text()),
+            };
+            buf.hyp("fresh_dialect_same_numbering", "blocking", ok, json!({"dialect": name, "node": g.label(n), "why": why}));
+        }
     }
 
-    // reachability + direct observation of Dialect::ref on every reachable reference
-    let (order, parent) = g.reach();
+    // direct observation of Dialect::ref on every reachable reference
     let root_ok = g.deref(0).is_some();
     buf.direct("root", root_ok, &format!("{}:FileSegment", name), "FileSegment is not defined", json!({"dialect": name}));
     let mut dangling: BTreeMap<usize, usize> = BTreeMap::new(); // name -> first node using it
@@ -532,15 +1115,96 @@ pub fn analyse(name: &str, known: &[String], corpus_hits: &BTreeMap<String, Stri
         }
     }
 
-    // termination certificate
-    let ranks = g.ranks();
-    for &n in &order {
-        let ok = ranks[n].is_some();
-        if !ok {
-            buf.direct("simple-terminates", false, &format!("{}:leftcorner-cycle#{}", name, g.describe(n)), "first-token hint recursion does not terminate (left-corner cycle)", json!({"dialect": name, "node": n, "path": g.path_to(&parent, n)}));
+    // termination of the first-token hint: one finding per left-corner cycle through reachable nodes
+    let show_real = |g: &Graph, n: usize| -> String { simples[n].as_ref().map(|r| r.text(g)).unwrap_or_else(|| "not asked".into()) };
+    let mut sql_hangs: Vec<(String, Hang)> = synth.hangs.get(name).cloned().unwrap_or_default();
+    let mut sql_origin = "a fixture / probe statement parsed under this dialect";
+    let mut sql_panics: Vec<(String, String)> = synth.selfref.get(name).cloned().unwrap_or_default();
+    if sql_hangs.is_empty() && sql_panics.is_empty() && !cycles.is_empty() {
+        // nothing in the corpus drives the parser there: aim statements at the elements whose hint is bad
+        // (the cycles and what sits on top of them) with the grammar itself
+        let mut targets: Vec<usize> = cycles.iter().flat_map(|c| c.iter().copied()).collect();
+        targets.extend(unranked_reach.iter().copied().filter(|n| !targets.contains(n)).take(24).collect::<Vec<_>>());
+        let cands = aimed_sql(&g, &dialect, &targets);
+        buf.count("aimed_sql_candidates", cands.len());
+        for sql in cands.iter().take(48) {
+            match parse_bad_fresh(name, sql) {
+                Some(ParseBad::Hang(h)) => sql_hangs.push((sql.clone(), h)),
+                Some(ParseBad::SelfRef(m)) => sql_panics.push((sql.clone(), m)),
+                None => continue,
+            }
+            sql_origin = "generated from the grammar: shortest token prefix that reaches the element + one more token";
+            break;
         }
     }
-    buf.direct("simple-terminates", order.iter().all(|&n| ranks[n].is_some()), &format!("{}:leftcorner", name), "", Value::Null);
+    let mut cycle_certs: Vec<(Vec<usize>, Vec<usize>)> = vec![]; // (path root..head, cycle)
+    for cyc in &cycles {
+        let names = g.cycle_names(cyc);
+        let head = cyc[0];
+        let path = g.path_to(&parent, head);
+        cycle_certs.push((path.clone(), cyc.clone()));
+        let observed: Vec<Value> = cyc.iter().map(|&n| json!({"node": g.label(n), "real_simple": show_real(&g, n)})).collect();
+        let confirmed = cyc.iter().any(|&n| simples[n].as_ref().map(|r| r.class == 5 || r.class == 3).unwrap_or(false));
+        let hung = cyc.iter().any(|&n| simples[n].as_ref().map(|r| r.class == 5).unwrap_or(false));
+        let asked = cyc.iter().copied().find(|&n| simples[n].as_ref().map(|r| r.class == 5).unwrap_or(false)).unwrap_or(head);
+        let above: Vec<usize> = unranked_reach.iter().copied().filter(|n| !cyc.contains(n)).collect();
+        let key = format!("{}:hint-cycle:{}", name, names.join(">"));
+        let msg = format!(
+            "computing the first-token hint (Matchable::simple) of an element of dialect {} reachable from FileSegment does not terminate: left-corner reference cycle {} ({}); real simple() on a fresh dialect: {}{}",
+            name,
+            names.join(" -> "),
+            cyc.iter().map(|&n| g.label(n)).chain(std::iter::once(format!("back to #{}", head))).collect::<Vec<_>>().join(" -> "),
+            if hung { "never returns (Ref::simple re-enters its own OnceLock::get_or_init and the thread blocks)" } else if confirmed { "panics 'Self referential grammar detected'" } else { "returned (the cycle is only in the static over-approximation)" },
+            match (sql_hangs.first(), sql_panics.first()) {
+                (Some((sql, _)), _) => format!("; the parse of {:?} never returns", trunc(sql, 200)),
+                (None, Some((sql, m))) => format!("; the parse of {:?} aborts: {}", trunc(sql, 200), m),
+                _ => String::new(),
+            }
+        );
+        let input = json!({
+            "dialect": name,
+            "reference_cycle": names,
+            "cycle_nodes": cyc.iter().map(|&n| g.label(n)).collect::<Vec<_>>(),
+            "hint_node": asked,
+            "hint_node_is": g.label(asked),
+            "n_nodes": n_nodes,
+            "real_simple_of_cycle_nodes": observed,
+            "path_from_FileSegment": path.iter().map(|&p| g.label(p)).collect::<Vec<_>>(),
+            "other_reachable_elements_whose_hint_depends_on_the_cycle": above.len(),
+            "e_g": above.iter().take(8).map(|&n| json!({"node": g.label(n), "real_simple": show_real(&g, n)})).collect::<Vec<_>>(),
+            "sql_whose_parse_hangs": sql_hangs.first().map(|(s, _)| s.clone()),
+            "more_sql_whose_parse_hangs": sql_hangs.iter().skip(1).take(3).map(|(s, _)| trunc(s, 300)).collect::<Vec<_>>(),
+            "parse_watchdog": sql_hangs.first().map(|(_, h)| h.json()),
+            "sql_whose_parse_aborts_self_referential": sql_panics.first().map(|(s, _)| s.clone()),
+            "abort_message": sql_panics.first().map(|(_, m)| m.clone()),
+            "sql_found_by": if sql_hangs.is_empty() && sql_panics.is_empty() { Value::Null } else { json!(sql_origin) },
+        });
+        buf.direct("simple-terminates", false, &key, &msg, input);
+    }
+    if cycles.is_empty() && !unranked_reach.is_empty() {
+        let n = unranked_reach[0];
+        buf.direct("simple-terminates", false, &format!("{}:hint-unranked:{}", name, g.describe(n)), "a reachable element has no termination rank for its first-token hint, and no left-corner cycle was found below it",
+            json!({"dialect": name, "hint_node": n, "hint_node_is": g.label(n), "n_nodes": n_nodes, "real_simple": show_real(&g, n), "path_from_FileSegment": g.path_to(&parent, n).iter().map(|&p| g.label(p)).collect::<Vec<_>>()}));
+    }
+    if unranked_reach.is_empty() {
+        buf.direct("simple-terminates", true, "", "", Value::Null);
+        if let Some((sql, m)) = sql_panics.first() {
+            buf.direct("parse-returns", false, &format!("{}:parse-selfref", name), &format!("the parse of {:?} under dialect {} aborts: {}", trunc(sql, 200), name, m),
+                json!({"dialect": name, "sql_whose_parse_aborts_self_referential": sql, "abort_message": m}));
+        }
+        if !sql_hangs.is_empty() {
+            // a parse that blocks although every reachable hint has a rank: not explained by the dump
+            let (sql, h) = &sql_hangs[0];
+            buf.direct("parse-returns", false, &format!("{}:parse-hang", name), &format!("the parse of {:?} under dialect {} {}", trunc(sql, 200), name, h.text()),
+                json!({"dialect": name, "sql_whose_parse_hangs": sql, "parse_watchdog": h.json()}));
+        }
+    }
+    buf.count("nodes_without_rank", n_risky);
+    buf.count("reachable_nodes_without_rank", unranked_reach.len());
+    buf.count("leftcorner_cycles_reachable", cycles.len());
+    buf.count("leftcorner_cycles_unreachable", cycles_unreachable);
+    buf.count("real_simple_hangs", simples.iter().flatten().filter(|r| r.class == 5).count());
+    buf.count("real_simple_not_asked", simples.iter().filter(|r| r.is_none()).count());
 
     // absent-name samples for the deref tie
     let mut probes: Vec<(usize, bool)> = vec![];
@@ -593,12 +1257,14 @@ pub fn analyse(name: &str, known: &[String], corpus_hits: &BTreeMap<String, Stri
         simples
             .iter()
             .enumerate()
+            .filter_map(|(i, s)| s.as_ref().map(|s| (i, s)))
             .map(|(i, s)| {
                 let v = match s.class {
                     0 => format!("SVal (Some ({},{}))", gl(&s.raws), gl(&s.types)),
                     1 => "SVal None".to_string(),
                     2 => "SDangling".to_string(),
                     3 => "SSelfRef".to_string(),
+                    5 => "SHang".to_string(),
                     _ => "SPanic".to_string(),
                 };
                 format!("({},{})", i, v)
@@ -607,7 +1273,9 @@ pub fn analyse(name: &str, known: &[String], corpus_hits: &BTreeMap<String, Stri
             .join(";\n")
     );
     let _ = writeln!(t, "Definition real_deref : list (N * bool) := {}.", g_list(probes.iter().map(|(n, b)| format!("({},{})", n, g_bool(*b)))));
-    let fuel = ranks.iter().flatten().max().copied().unwrap_or(0) + 2;
+    // deep enough for every computation that ends: above the highest rank, and, when some node has no
+    // rank, above the longest trail that does not come back to a `Ref` already on it
+    let fuel = if n_risky == 0 { ranks.iter().flatten().max().copied().unwrap_or(0) + 2 } else { n_nodes + 2 };
     let _ = writeln!(t, "Definition fuel : nat := N.to_nat {}.", fuel);
     // diagnostics first (printed even when a theorem below fails)
     t.push_str("Eval vm_compute in (101, N.of_nat (length (pset_elements (reach g)))).\n");
@@ -615,8 +1283,17 @@ pub fn analyse(name: &str, known: &[String], corpus_hits: &BTreeMap<String, Stri
     t.push_str("Eval vm_compute in (103, simple_mismatches g fuel real_simple).\n");
     t.push_str("Eval vm_compute in (104, deref_mismatches g real_deref).\n");
     t.push_str("Eval vm_compute in (105, unranked g (reach g) ranks).\n");
+    t.push_str("Eval vm_compute in (106, hint_failures g fuel (unranked g (reach g) ranks)).\n");
     // obligations
     let _ = writeln!(t, "Theorem closed_{d} : closed_except_b g known = true.\nProof. vm_compute. reflexivity. Qed.");
+    // refutation certificates (only when the translator found left-corner cycles): checked before the
+    // rank obligation below, which they contradict
+    for (k, (path, cyc)) in cycle_certs.iter().enumerate() {
+        let _ = writeln!(t, "Definition cycle_path_{k} : list N := {}.\nDefinition cycle_{k} : list N := {}.", gl(path), gl(cyc));
+        let _ = writeln!(t, "Theorem {d}_leftcorner_cycle_{k} : reachable_cycle_b g cycle_path_{k} cycle_{k} = true.\nProof. vm_compute. reflexivity. Qed.");
+        let _ = writeln!(t, "Theorem {d}_has_no_rank_certificate_{k} : forall ranks', rank_ok_b g (reach g) ranks' = false.\nProof. exact (reachable_cycle_no_certificate g known cycle_path_{k} cycle_{k} closed_{d} {d}_leftcorner_cycle_{k}). Qed.");
+        let _ = writeln!(t, "Eval vm_compute in (107, map (fun n => (n, sres_code (simple g fuel [] [] n))) cycle_{k}).");
+    }
     let _ = writeln!(t, "Theorem known_dangling_{d} : forallb (fun kp => path_dangling_b g (snd kp) (fst kp)) known_paths = true.\nProof. vm_compute. reflexivity. Qed.");
     let _ = writeln!(t, "Theorem ranked_{d} : rank_ok_b g (reach g) ranks = true.\nProof. vm_compute. reflexivity. Qed.");
     let _ = writeln!(t, "Theorem simple_agrees_{d} : simple_mismatches g fuel real_simple = [].\nProof. vm_compute. reflexivity. Qed.");
@@ -629,7 +1306,7 @@ pub fn analyse(name: &str, known: &[String], corpus_hits: &BTreeMap<String, Stri
     );
     let _ = writeln!(
         t,
-        "Theorem {d}_simple_terminates : forall n, reachable g n -> exists r, rank_of (mk_ranks ranks) n = Some r /\\ forall f, (N.to_nat r < f)%nat -> simple g f [] n <> SFuel /\\ simple g f [] n <> SSelfRef.\nProof. exact (simple_terminates_reachable g known ranks closed_{d} ranked_{d}). Qed."
+        "Theorem {d}_simple_terminates : forall n, reachable g n -> exists r, rank_of (mk_ranks ranks) n = Some r /\\ forall f, (N.to_nat r < f)%nat -> simple g f [] [] n <> SFuel /\\ simple g f [] [] n <> SHang /\\ simple g f [] [] n <> SSelfRef.\nProof. exact (simple_terminates_reachable g known ranks closed_{d} ranked_{d}). Qed."
     );
     let _ = writeln!(
         t,
@@ -637,7 +1314,7 @@ pub fn analyse(name: &str, known: &[String], corpus_hits: &BTreeMap<String, Stri
     );
     let _ = writeln!(t, "Print Assumptions {d}_every_reachable_reference_resolves.\nPrint Assumptions {d}_simple_terminates.\nPrint Assumptions {d}_known_are_dangling.");
 
-    let n_simple_some = simples.iter().filter(|s| s.class == 0).count();
+    let n_simple_some = simples.iter().flatten().filter(|s| s.class == 0).count();
     let kinds = {
         let mut h: BTreeMap<&'static str, usize> = BTreeMap::new();
         for n in &g.nodes {
@@ -670,8 +1347,10 @@ pub fn analyse(name: &str, known: &[String], corpus_hits: &BTreeMap<String, Stri
     buf.count("dangling_reachable_names", dangling.len());
     let stats = json!({"dialect": name, "nodes": n_nodes, "library": g.library.len(), "reachable": order.len(), "reference_edges": n_refs,
         "distinct_reference_names": ref_names.len(), "dangling": dangling.keys().map(|r| g.strs[*r].clone()).collect::<Vec<_>>(),
-        "simple_some": n_simple_some, "simple_panics": simples.iter().filter(|s| s.class >= 2).count(), "max_rank": fuel - 2, "node_kinds": kinds,
-        "reachable_simple_panics": order.iter().filter(|&&n| simples[n].class >= 2).count()});
+        "simple_some": n_simple_some, "simple_panics": simples.iter().flatten().filter(|s| s.class >= 2 && s.class != 5).count(), "max_rank": ranks.iter().flatten().max().copied().unwrap_or(0), "node_kinds": kinds,
+        "reachable_simple_panics": order.iter().filter(|&&n| simples[n].as_ref().map(|s| s.class >= 2 && s.class != 5).unwrap_or(false)).count(),
+        "simple_hangs": simples.iter().flatten().filter(|s| s.class == 5).count(), "nodes_without_rank": n_risky, "reachable_nodes_without_rank": unranked_reach.len(),
+        "leftcorner_cycles": cycles.iter().map(|c| g.cycle_names(c).join(" -> ")).collect::<Vec<_>>()});
     DialectReport { dialect: name.to_string(), text: t, n_nodes, n_reach: order.len(), n_refs, n_obligations: 8, dangling: dangling_json, stats, strs: g.strs.clone() }
 }
 
@@ -846,14 +1525,88 @@ const PROBES: &[&str] = &[
     "SELECT first_value(a) IGNORE NULLS OVER (ORDER BY b RANGE BETWEEN 1 PRECEDING AND 1 FOLLOWING EXCLUDE CURRENT ROW) FROM t\n",
 ];
 
+/// Does the parse of `sql` under a freshly built dialect `d` block?  (`Some` = it never returned.)
+pub fn parse_hangs_fresh(d: &str, sql: &str) -> Option<Hang> {
+    let (d, sql) = (d.to_string(), sql.to_string());
+    match watched(parse_limit(), move || {
+        let dialect = dialect_of(&d);
+        let _ = parse_with(&dialect, &sql);
+    }) {
+        Watched::Done(()) => None,
+        Watched::Hung(h) => Some(h),
+    }
+}
+
+/// How a parse shows a hint computation that does not end: it blocks, or it aborts with the
+/// self-reference panic of `Ref::simple`.
+pub enum ParseBad {
+    Hang(Hang),
+    SelfRef(String),
+}
+pub fn parse_bad_fresh(d: &str, sql: &str) -> Option<ParseBad> {
+    let (d, sql) = (d.to_string(), sql.to_string());
+    match watched(parse_limit(), move || {
+        let dialect = dialect_of(&d);
+        parse_with(&dialect, &sql)
+    }) {
+        Watched::Done(Err(msg)) if msg.contains("Self referential grammar") => Some(ParseBad::SelfRef(trunc(&msg, 200))),
+        Watched::Done(_) => None,
+        Watched::Hung(h) if h.verdict == "deadlock" => Some(ParseBad::Hang(h)),
+        Watched::Hung(_) => None,
+    }
+}
+
+/// Smaller SQL that still blocks the parser: the first single statement of a fixture that does, then
+/// the shortest prefix (in words) of it found by a few bisection steps.  Every probe uses a fresh dialect.
+pub fn shrink_hanging_sql(d: &str, sql: &str, h: &Hang) -> (String, Hang) {
+    let mut best = (sql.to_string(), h.clone());
+    if std::env::var("SQV_C14_NO_SHRINK").is_ok() {
+        return best;
+    }
+    let stmts: Vec<&str> = sql.split(';').map(|s| s.trim()).filter(|s| !s.is_empty()).collect();
+    if stmts.len() > 1 {
+        for st in stmts.iter().take(24) {
+            let cand = format!("{}\n", st);
+            if let Some(h2) = parse_hangs_fresh(d, &cand) {
+                best = (cand, h2);
+                break;
+            }
+        }
+    }
+    let words: Vec<String> = best.0.split_whitespace().map(|w| w.to_string()).collect();
+    let (mut lo, mut hi) = (1usize, words.len()); // prefix of `hi` words blocks
+    let mut probes = 0;
+    while lo < hi && probes < 6 {
+        let mid = (lo + hi) / 2;
+        let cand = format!("{}\n", words[..mid].join(" "));
+        probes += 1;
+        match parse_hangs_fresh(d, &cand) {
+            Some(h2) => {
+                hi = mid;
+                best = (cand, h2);
+            }
+            None => lo = mid + 1,
+        }
+    }
+    best
+}
+
+/// after this many parses of one dialect that never returned, its remaining items are skipped
+const MAX_SQL_HANGS: usize = 12;
+
 /// For every dialect: run corpus files (own and foreign) and probe statements through the real
-/// parser and collect, per dangling reference, the shortest SQL whose parse aborts in
-/// `Dialect::ref`. Returns key "<dialect>:<Name>KeywordSegment" -> SQL.
-pub fn synthesise_sql(dialects: &[&str], thorough: bool, out: &mut Out) -> BTreeMap<String, String> {
-    let files = corpus();
+/// parser (each parse on a watched helper thread) and collect, per dangling reference, the shortest
+/// SQL whose parse aborts in `Dialect::ref`, and per dialect the SQL whose parse never returns.
+pub fn synthesise_sql(dialects: &[&str], thorough: bool, out: &mut Out) -> Synth {
+    // SQV_C14_NO_CORPUS: self-test of the grammar-directed generator (no fixture, no probe statement)
+    let no_corpus = std::env::var("SQV_C14_NO_CORPUS").is_ok();
+    let files = if no_corpus { vec![] } else { corpus() };
     let mut items: Vec<(String, String)> = vec![];
     for d in dialects {
         for p in PROBES {
+            if no_corpus {
+                break;
+            }
             items.push((d.to_string(), p.to_string()));
         }
         for (i, f) in files.iter().enumerate() {
@@ -865,21 +1618,42 @@ pub fn synthesise_sql(dialects: &[&str], thorough: bool, out: &mut Out) -> BTree
             }
         }
     }
-    let hits = std::sync::Mutex::new(BTreeMap::<String, String>::new());
-    let cache = std::sync::Mutex::new(HashMap::<String, std::sync::Arc<Dialect>>::new());
-    let n_items = items.len();
+    let hits = Mutex::new(BTreeMap::<String, String>::new());
+    let hangs = Mutex::new(BTreeMap::<String, Vec<(String, Hang)>>::new());
+    let selfref = Mutex::new(BTreeMap::<String, Vec<(String, String)>>::new());
+    let cache = Mutex::new(HashMap::<String, Arc<Dialect>>::new());
     par_run(
         out,
         &items,
         || (),
         |_, (d, sql), buf| {
+            if hangs.lock().unwrap().get(d).map(|v| v.len() >= MAX_SQL_HANGS).unwrap_or(false) {
+                buf.count("synth_skipped_after_hangs", 1);
+                return;
+            }
             let dialect = {
                 let mut c = cache.lock().unwrap();
-                c.entry(d.clone()).or_insert_with(|| std::sync::Arc::new(dialect_of(d))).clone()
+                c.entry(d.clone()).or_insert_with(|| Arc::new(dialect_of(d))).clone()
             };
-            let r = parse_with(&dialect, sql);
+            let sql2 = sql.clone();
+            let r = match watched(parse_limit(), move || parse_with(&dialect, &sql2)) {
+                Watched::Done(r) => r,
+                Watched::Hung(h) => {
+                    if h.verdict == "deadlock" {
+                        buf.count("synth_parse_hangs", 1);
+                        hangs.lock().unwrap().entry(d.clone()).or_default().push((sql.clone(), h));
+                    } else {
+                        buf.count("synth_parse_over_limit", 1);
+                    }
+                    return;
+                }
+            };
             buf.count("synth_parses", 1);
             if let Err(msg) = r {
+                if msg.contains("Self referential grammar") {
+                    buf.count("synth_selfref_panics", 1);
+                    selfref.lock().unwrap().entry(d.clone()).or_default().push((sql.clone(), trunc(&msg, 200)));
+                }
                 let name = if let Some(i) = msg.find("Grammar refers to the '") {
                     let rest = &msg[i + 23..];
                     rest.find('\'').map(|j| format!("{}KeywordSegment", &rest[..j]))
@@ -901,13 +1675,73 @@ pub fn synthesise_sql(dialects: &[&str], thorough: bool, out: &mut Out) -> BTree
             }
         },
     );
-    let _ = n_items;
-    hits.into_inner().unwrap()
+    // every SQL kept was seen blocking twice: in the sweep above and alone on a dialect built for it
+    let swept = hangs.into_inner().unwrap();
+    let mut hangs: BTreeMap<String, Vec<(String, Hang)>> = BTreeMap::new();
+    let confirmed: Vec<(String, Vec<(String, Hang)>, usize)> = std::thread::scope(|sc| {
+        let hs: Vec<_> = swept
+            .into_iter()
+            .map(|(d, mut v)| {
+                sc.spawn(move || {
+                    v.sort_by_key(|(s, _)| s.len());
+                    let mut kept: Vec<(String, Hang)> = vec![];
+                    let mut unconfirmed = 0usize;
+                    for (sql, _) in v.iter().take(4) {
+                        match parse_hangs_fresh(&d, sql) {
+                            Some(h) => kept.push((sql.clone(), h)),
+                            None => unconfirmed += 1,
+                        }
+                    }
+                    if let Some((sql, h)) = kept.first().cloned() {
+                        let (small, h2) = shrink_hanging_sql(&d, &sql, &h);
+                        if small != sql {
+                            kept.insert(0, (small, h2));
+                        }
+                    }
+                    (d, kept, unconfirmed)
+                })
+            })
+            .collect();
+        hs.into_iter().filter_map(|h| h.join().ok()).collect()
+    });
+    let mut buf = Buf::default();
+    for (d, kept, unconfirmed) in confirmed {
+        buf.count("synth_parse_hangs_not_confirmed", unconfirmed);
+        if !kept.is_empty() {
+            hangs.insert(d, kept);
+        }
+    }
+    out.absorb(buf);
+    let mut selfref = selfref.into_inner().unwrap();
+    for v in selfref.values_mut() {
+        v.sort_by_key(|(s, _)| s.len());
+        v.truncate(4);
+    }
+    Synth { aborts: hits.into_inner().unwrap(), hangs, selfref }
+}
+
+/// The watchdog is tested on every run against the very mechanism it is there for: a `OnceLock` that is
+/// initialised again from its own initialiser (what `Ref::simple` does on a left-corner self reference).
+/// std documents the outcome as unspecified ("the current implementation deadlocks"); the model's `SHang`
+/// and the absence of observed hangs both rest on it, so it is a blocking hypothesis.
+pub fn watchdog_selftest() -> (bool, Value) {
+    let t0 = Instant::now();
+    let w = watched(Duration::from_secs(20), || {
+        let cell: Arc<std::sync::OnceLock<u32>> = Arc::new(std::sync::OnceLock::new());
+        let c2 = cell.clone();
+        catch(move || *cell.get_or_init(|| *c2.get_or_init(|| 1) + 1))
+    });
+    let ms = t0.elapsed().as_millis() as u64;
+    match w {
+        Watched::Hung(h) => (h.verdict == "deadlock", json!({"reentrant_OnceLock": h.text(), "verdict": h.verdict, "detected_after_ms": ms})),
+        Watched::Done(r) => (false, json!({"reentrant_OnceLock": format!("returned {:?}: std no longer blocks on re-entrant initialisation; the model's SHang and this watchdog need revisiting", r)})),
+    }
 }
 
 pub fn main(args: &Args) {
     silence_panics();
     let mut out = Out::new(&args.out);
+    let selftest = std::thread::spawn(watchdog_selftest);
     let gen_dir = args.flag("--gen-dir").unwrap_or_else(|| "/tmp/sqv-c14-gen".into());
     std::fs::create_dir_all(&gen_dir).unwrap();
     let known: Vec<String> = args.flag("--known").map(|s| s.split(',').filter(|x| !x.is_empty()).map(|x| x.to_string()).collect()).unwrap_or_default();
@@ -926,6 +1760,27 @@ pub fn main(args: &Args) {
         if let Some(sql) = v["sql_that_aborts"].as_str() {
             let r = parse_with(&dialect, sql);
             buf.direct("replay-sql", r.is_ok(), &format!("{}:{}", d, v["reference"].as_str().unwrap_or("?")), &format!("{:?}", r.err()), v.clone());
+        }
+        // {"dialect":.., "hint_node": n, "hint_node_is": "Ref(X)#n", "n_nodes": .., "sql_whose_parse_hangs": ..}
+        if let (Some(n), Some(is)) = (v["hint_node"].as_u64(), v["hint_node_is"].as_str()) {
+            let desc = is.split('#').next().unwrap_or("");
+            let nn = v["n_nodes"].as_u64().map(|x| x as usize).unwrap_or_else(|| Graph::build(&d, &dialect).nodes.len());
+            let (ok, msg) = match fresh_simple(&d, n as usize, nn, desc) {
+                Watched::Done(Ok(Ok(_))) => (true, String::new()),
+                Watched::Done(Ok(Err(p))) => (!p.contains("Self referential"), format!("simple() panics: {}", p)),
+                Watched::Done(Err(why)) => (true, why),
+                Watched::Hung(h) => (false, format!("simple() of {} {}", is, h.text())),
+            };
+            buf.direct("replay-hint", ok, &format!("{}:hint:{}", d, desc), &msg, v.clone());
+        }
+        if let Some(sql) = v["sql_whose_parse_aborts_self_referential"].as_str() {
+            let r = parse_with(&dialect, sql);
+            let bad = matches!(&r, Err(m) if m.contains("Self referential grammar"));
+            buf.direct("replay-parse-no-selfref-abort", !bad, &format!("{}:parse-selfref", d), &format!("{:?}", r.err()), v.clone());
+        }
+        if let Some(sql) = v["sql_whose_parse_hangs"].as_str() {
+            let h = parse_hangs_fresh(&d, sql);
+            buf.direct("replay-parse-returns", h.is_none(), &format!("{}:parse-hang", d), &h.map(|h| format!("the parse {}", h.text())).unwrap_or_default(), v.clone());
         }
         out.absorb(buf);
         out.finish();
@@ -946,11 +1801,21 @@ pub fn main(args: &Args) {
             reports.lock().unwrap().push(rep);
         },
     );
+    {
+        let (ok, v) = selftest.join().unwrap_or((false, json!("self-test thread panicked")));
+        let mut b = Buf::default();
+        b.hyp("watchdog_sees_reentrant_oncelock", "blocking", ok, v.clone());
+        out.absorb(b);
+        out.stat(json!({"watchdog_selftest": v}));
+    }
     let mut reports = reports.into_inner().unwrap();
     reports.sort_by(|a, b| a.dialect.cmp(&b.dialect));
     for r in &reports {
         out.stat(r.stats.clone());
     }
-    out.stat(json!({"sql_synthesised_for": hits.keys().collect::<Vec<_>>()}));
+    out.stat(json!({"sql_synthesised_for": hits.aborts.keys().collect::<Vec<_>>()}));
+    if !hits.hangs.is_empty() {
+        out.stat(json!({"sql_whose_parse_never_returns": hits.hangs.iter().map(|(d, v)| json!({"dialect": d, "n": v.len(), "shortest": trunc(&v[0].0, 300)})).collect::<Vec<_>>()}));
+    }
     out.finish();
 }
